@@ -18,6 +18,7 @@ import JsonV.Lemmas.QuoteRaw
 import JsonV.Lemmas.GlueQuote
 import JsonV.Lemmas.QuoteSpan
 import JsonV.Lemmas.QuoteJString
+import JsonV.Lemmas.QuoteReformat
 import JsonV.Gen.Lits
 
 namespace JsonV.Props.C11
@@ -217,8 +218,35 @@ theorem reformat_meaning_partial (f : QFlags) (src : Bytes) (hok : (reformatStri
       · simp only
         rw [unquote_quote_lossy, lossy_of_wellFormed _ (appendUnquote_wellFormed _)]
 
+/-- ReformatString keeps the meaning of the literal in ALL three branches (verbatim copy, PreserveRawStrings loop with
+EscapeForHTML/JS, re-quote) whenever AllowInvalidUTF8 is off; the output unquotes to the same text. -/
+theorem reformat_meaning_strict (f : QFlags) (src : Bytes) (ha : f.allowInvalid = false)
+    (hok : (reformatString f src).2.2 = Err.ok) :
+    (appendUnquote (reformatString f src).1).1 = (appendUnquote (src.take (reformatString f src).2.1)).1 := by
+  by_cases hp : f.preserve = false ∨ (f.html = false ∧ f.js = false)
+  · exact reformat_meaning_partial f src hok hp
+  · have hpres : f.preserve = true := by cases h : f.preserve <;> simp_all
+    have hesc : (f.html || f.js) = true := by cases h1 : f.html <;> cases h2 : f.js <;> simp_all
+    simp only [reformatString, ha, hpres, hesc, Bool.not_false, Bool.not_true, Bool.false_and, Bool.false_eq_true,
+      ↓reduceIte] at hok ⊢
+    split
+    · rename_i herr; rw [if_pos herr] at hok; exact absurd hok herr
+    · rename_i herr
+      have hcs : consumeString true src = ((consumeString true src).1, Err.ok, (consumeString true src).2.2) := by
+        have : (consumeString true src).2.1 = Err.ok := by
+          cases h : (consumeString true src).2.1 <;> simp_all
+        rw [← this]
+      rw [JsonV.Lemmas.QuoteReformat.preserve_loop_meaning f.html f.js src _ _ hcs]
+
+/-- Every literal of C01's strict grammar is a `StringLiteral` (has an RFC 8259 meaning) and AppendUnquote returns it:
+`unquote_meaning` applies to everything the strict scanner accepts. -/
+theorem strict_literal_meaning (lit : Bytes) (h : JsonV.Spec.Grammar.JString true lit) :
+    ∃ m, StringLiteral lit m ∧ appendUnquote lit = (m, Err.ok) := by
+  obtain ⟨m, hm⟩ := JsonV.Lemmas.QuoteReformat.stringLiteral_of_jstring lit h
+  exact ⟨m, hm, appendUnquote_meaning lit m hm⟩
+
 /-- Full statement: reformatting keeps the meaning of the literal.  Open part: the PreserveRawStrings loop with an
-escape option on (the remaining branches are `reformat_meaning_partial`). -/
+escape option on AND AllowInvalidUTF8 (everything else is `reformat_meaning_partial` / `reformat_meaning_strict`). -/
 def reformat_meaning_full : Prop :=
   ∀ (f : QFlags) (src : Bytes), (reformatString f src).2.2 = Err.ok →
     (appendUnquote (reformatString f src).1).1 = (appendUnquote (src.take (reformatString f src).2.1)).1
@@ -262,6 +290,18 @@ theorem unquote_fffd_count (body : Bytes) (hb : RawBody body) :
 
 example : RawBody [0x61, 0xff, 0xE2, 0x80] := by
   intro b hb; simp at hb; rcases hb with rfl | rfl | rfl | rfl <;> decide
+
+/-- The same for literals that MIX escape sequences, well-formed text and raw ill-formed bytes (`UnescapesLossy body m k`:
+`m` has exactly one U+FFFD for each of the `k` ill-formed bytes): AppendUnquote returns `m`, with ErrInvalidUTF8 iff
+`k > 0`. -/
+theorem unquote_fffd_count_mixed (body m : Bytes) (k : Nat) (h : UnescapesLossy body m k) :
+    appendUnquote (0x22 :: (body ++ [0x22])) = (m, if 0 < k then Err.invalidUTF8 else Err.ok) := by
+  simp only [appendUnquote, ↓reduceIte]
+  exact unqLoop_lossy h Err.ok
+
+-- `"\n` FF `\u0041"` : meaning LF U+FFFD 'A', one ill-formed byte
+example : UnescapesLossy [0x5c, 0x6e, 0xff, 0x5c, 0x75, 0x30, 0x30, 0x34, 0x31] ([0x0a] ++ (replacement ++ (encodeRune 0x41 ++ []))) 1 :=
+  .simple (by decide) (.bad (by decide) (by decide +kernel) (.unicode (v := 0x41) (by decide) (by decide) .nil))
 
 /-! ### Glue with slice C01 (Model/WireDecode.lean): one model of strings -/
 
